@@ -283,6 +283,9 @@ class Surface(Numbered_MCNP_Object):
             self._old_periodic_surface.value = self.periodic_surface.number
             self._old_periodic_surface.is_negative = True
             self._tree.nodes["pointer"] = self._old_periodic_surface
+        elif self._tree["pointer"].value is not None:
+            # the transform / periodic link was deleted through the API: the card must not keep the old pointer
+            self._tree["pointer"].value = None
 
     def __lt__(self, other):
         return self.number < other.number
